@@ -1578,6 +1578,97 @@ S_MEMO_BASE = st.one_of(s_value(2, top=True), s_value(2, top=True), s_wrapped(s_
 S_CROSS_EXTRA = st.lists(st.sampled_from(FS_KEYS), min_size=2, max_size=3, unique_by=_hkey).map(_node("set"))
 
 
+# ---- consequence clause over histories: the *same object* passed again after it was changed in place -----------
+ALIAS_KINDS = ["list", "dict", "nd", "nd2", "ro-view", "broadcast", "series", "nested"]
+
+
+@st.composite
+def s_alias(draw):
+    n = draw(st.integers(2, 4))
+    versions = [draw(st.lists(st.integers(0, 3), min_size=3, max_size=3)) for _ in range(n)]
+    return {"kind": draw(st.sampled_from(ALIAS_KINDS)), "versions": versions, "cache": draw(st.sampled_from(CACHES)),
+            "direct": draw(st.booleans()), "fresh_between": draw(st.booleans())}  # fmt: skip
+
+
+def _alias_make(kind, v):
+    """(argument object, setter that changes the argument's content in place to version w)."""
+    if kind == "list":
+        obj = list(v)
+        return obj, lambda w: obj.__setitem__(slice(None), list(w))
+    if kind == "dict":
+        obj = {"a": v[0], "b": v[1], "c": v[2]}
+        return obj, lambda w: obj.update({"a": w[0], "b": w[1], "c": w[2]})
+    if kind == "nested":
+        obj = {"k": [list(v)]}
+        return obj, lambda w: obj["k"][0].__setitem__(slice(None), list(w))
+    if kind == "series":
+        obj = pd.Series(list(v), index=["x", "y", "z"], name="s")
+        return obj, lambda w: obj.__setitem__(slice(None), list(w))
+    base = np.array(v, dtype=np.int64) if kind != "nd2" else np.array([v, v[::-1]], dtype=np.int64)
+
+    def set_base(w):
+        base[...] = np.array(w, dtype=np.int64) if kind != "nd2" else np.array([w, w[::-1]], dtype=np.int64)
+
+    if kind in ("nd", "nd2"):
+        return base, set_base
+    if kind == "ro-view":
+        view = base[:]
+        view.flags.writeable = False
+        return view, set_base
+    return np.broadcast_to(base, (2, 3)), set_base  # read-only by construction
+
+
+def body_alias(data) -> Outcome:
+    out = Outcome()
+    data = _norm(data)
+    kind = data["kind"]
+    out.labels += ["alias:" + kind, "cache:" + data["cache"], "alias:direct" if data["direct"] else "alias:memoize"]
+    versions = data["versions"]
+    out.nontrivial = len({tuple(v) for v in versions}) >= 2
+    cache, tmpdir = _make_cache(data["cache"])
+    invoked = []
+
+    @memoize(cache=cache)
+    def tracer(x):
+        invoked.append(1)
+        return canon(x, False)
+
+    try:
+        obj, setter = _alias_make(kind, versions[0])
+        seen: dict = {}
+        for i, v in enumerate(versions):
+            if i:
+                setter(v)
+            want = canon(obj, False)
+            out.units += 1
+            try:
+                if data["direct"]:
+                    key = to_hashable(obj)
+                    hash(key)
+                    prev = seen.get(repr(want))
+                    if prev is not None and prev != key:
+                        out.fail(f"alias-equal-content-different-keys:{kind}", f"version {i} {v}: {key!r} vs {prev!r}")
+                    clash = [w for w, k in seen.items() if k == key and w != repr(want)]
+                    if clash:
+                        out.fail(f"alias-changed-in-place-same-key:{kind}", f"version {i} {v} has the key of content {clash[0]}")
+                    seen[repr(want)] = key
+                    if data["fresh_between"]:  # an equal, separately built value must have the same key
+                        fresh, _ = _alias_make(kind, v)
+                        if to_hashable(fresh) != key:
+                            out.fail(f"alias-same-object-and-fresh-copy-different-keys:{kind}", f"version {i} {v}")
+                else:
+                    got = tracer(obj)
+                    if got != want:
+                        out.fail(f"alias-memoize-returned-result-of-earlier-content:{kind}", f"version {i} {v}: got {got!r} want {want!r}")
+            except Exception as e:  # noqa: BLE001
+                out.fail(exc_bucket(e, f"alias-raised:{kind}"), exc_detail(e))
+                break
+    finally:
+        if tmpdir:
+            boot.rm(tmpdir)
+    return out
+
+
 def _base_campaigns(tier):
     cross = st.fixed_dictionaries(
         {"recipes": st.tuples(st.lists(s_value(3, top=True), min_size=14, max_size=14), st.lists(S_CROSS_EXTRA, max_size=1)).map(lambda t: t[0] + t[1])}
@@ -1598,6 +1689,9 @@ def _base_campaigns(tier):
                  describe="batches of 14-15 recipes rebuilt in two worker interpreters with other hash seeds"),
         Campaign("memo", body_memo, s_memo(), quick=1600, thorough=25000,
                  describe="memoize-d tracer over call sequences, five cache configurations"),
+        Campaign("alias", body_alias, s_alias(), quick=1200, thorough=20000,
+                 describe="one argument object (list/dict/ndarray/read-only view/broadcast/Series) changed in place between "
+                          "conversions or memoize-d calls"),
     ]  # fmt: skip
 
 
